@@ -62,6 +62,8 @@ def b_isinstance(interp: Interp, v, T):
         if not sym:
             return False
         return z3.Or(*[to_z3(p) for p in sym])
+    if hasattr(v, "__sym_isinstance__"):
+        return v.__sym_isinstance__(interp, T)
     if isinstance(T, PyType):
         T = T.pytype
     if isinstance(T, TypeToken):
